@@ -377,8 +377,6 @@ func (m *Model) Step(u *ops.Universe, op ops.Op, out ops.Out) string {
 		case 2, 3:
 			m.ev("pushBlob-mismatch")
 			return wantErr("SIZE_INVALID")
-		case 4:
-			return wantErr()
 		}
 		if !validName {
 			return wantErr("NAME_INVALID")
@@ -399,7 +397,13 @@ func (m *Model) Step(u *ops.Universe, op ops.Op, out ops.Out) string {
 			mt = ops.MTBlobAlt
 			m.ev("blob-other-media-type")
 		}
-		if out.Desc.MediaType != mt {
+		if op.Mode == 4 {
+			// pushed without a media type (only digest and size are significant): stored as a plain blob
+			m.ev("blob-no-media-type")
+			if out.Desc.MediaType != "" && out.Desc.MediaType != mt {
+				return fmt.Sprintf("pushBlob without media type: returned media type %q", out.Desc.MediaType)
+			}
+		} else if out.Desc.MediaType != mt {
 			return fmt.Sprintf("pushBlob: returned media type %q, want %q", out.Desc.MediaType, mt)
 		}
 		r.Blobs[want.Digest] = Blob{data, mt}
